@@ -70,6 +70,21 @@ pub fn rec(rule: &'static str, alt: usize, span: Span, tag: u64, args: Vec<RawAr
     })
 }
 
+/// Actions of `()`-typed rules: the record's index cannot travel through the value, so it waits
+/// on a stack until the parent's action claims it with `unit($n)`. Reductions happen bottom-up,
+/// left to right, and a production has at most one unit-typed symbol: the record on top is the
+/// child's.
+thread_local! {
+    static UNCLAIMED: RefCell<Vec<usize>> = const { RefCell::new(Vec::new()) };
+}
+pub fn rec_unit(rule: &'static str, alt: usize, span: Span, tag: u64, args: Vec<RawArg>) {
+    let i = rec(rule, alt, span, tag, args);
+    UNCLAIMED.with(|u| u.borrow_mut().push(i));
+}
+pub fn unit(_: ()) -> RawArg {
+    RawArg::Val(UNCLAIMED.with(|u| u.borrow_mut().pop()).unwrap_or(usize::MAX))
+}
+
 pub fn term_of(l: &DefaultLexeme<u32>) -> reflr::Tree {
     reflr::Tree::Term { tok: l.tok_id() as u16, start: l.span().start(), len: l.span().len(), faulty: l.faulty() }
 }
@@ -118,6 +133,7 @@ fn other_modes(k: usize, sc: &RScenario) -> Vec<(String, String)> {
     // actions, no recovery
     let (n, _) = sim_process(sc.hash_seed, Some(&clock), || {
         RECS.with(|r| r.borrow_mut().clear());
+        UNCLAIMED.with(|u| u.borrow_mut().clear());
         let lx = mk_lexer(&lexer);
         let (v, errs) = run_generated_norecovery(k, &lx, PARAM_MAGIC);
         (v.is_some(), conv_errs(errs))
@@ -177,6 +193,7 @@ fn to_lx(l: &DefaultLexeme<u32>) -> Lx {
 fn run_gen(k: usize, b: &gram::Built, lexer: &StubLexer, hash_seed: u64, clock: &ClockPolicy) -> (SimOutcome<ActRun>, SimStats) {
     sim_process(hash_seed, Some(clock), || {
         RECS.with(|r| r.borrow_mut().clear());
+        UNCLAIMED.with(|u| u.borrow_mut().clear());
         let lexemes: Vec<Result<DefaultLexeme<u32>, lrlex::LRLexError>> = lexer.lexemes.iter().map(|l| Ok(DefaultLexeme::new(l.tok_id as u32, l.start, l.len))).collect();
         let mut nlc = cfgrammar::newlinecache::NewlineCache::new();
         nlc.feed(&lexer.text);
